@@ -365,7 +365,11 @@ class RelaxationNoise(Noise):
                             "t1={}, t2={} does not fulfill "
                             "2*t1>t2".format(t1, t2)
                         )
-                    T2_eff = 1.0 / (1.0 / t2 - 1.0 / 2.0 / t1)
+                    # pure dephasing rate, zero at the boundary t2 == 2*t1
+                    dephasing_rate = 1.0 / t2 - 1.0 / 2.0 / t1
+                    if dephasing_rate == 0.0:
+                        continue
+                    T2_eff = 1.0 / dephasing_rate
                 else:
                     T2_eff = t2
                 op = 1 / np.sqrt(2 * T2_eff) * 2 * num(dims[qu_ind])
